@@ -389,6 +389,13 @@ func (c *Checker) expandMacro(macro *types.Method, kind ast.MacroKind, posArgs [
 		promise = vm.NewNativePromise(c.threadPool, body.Function, runtimeArgs...)
 	case *vm.BytecodeFunction:
 		promise = vm.NewBytecodePromise(c.threadPool, body, runtimeArgs...)
+	case nil:
+		// the body of the macro did not compile, the cause has already been reported
+		c.addFailure(
+			fmt.Sprintf("cannot expand macro `%s`, its body could not be compiled", types.InspectWithColor(macro)),
+			loc,
+		)
+		return nil
 	default:
 		panic(fmt.Sprintf("invalid compiled macro body %T for: %s", body, macro.InspectSignature(false)))
 	}
